@@ -121,6 +121,30 @@ def run(R):
         for k in ('data', 'client-err', 'server-err', 'end'):
             R.check(got.get(k) is not None, 'C02.R3', 'row-present:%s' % k, site(pf), 'outcome row %s recognised: %r' % (k, got.get(k)))
 
+        # the message source is fused: poll_next polls it again after it ended (to flush buffered frames)
+        eb = tonic.body('codec::encode::EncodedBytes::<T, U>::new')
+        R.saw(eb)
+        for bb, i, p, a, ops in mirlib.aggregates(eb, 'encode::EncodedBytes'):
+            srcv = eb.origin(ops[a['fields'].index('source')])
+            okf = is_call(strip_refs(srcv), name='fuse') and show(strip_refs(srcv)[2][0]).startswith('arg2')
+            R.check(okf, 'C02.R3', 'source-fused', site(eb, bb, i),
+                    'EncodedBytes.source = source.fuse(): %r — EncodedBytes::poll_next re-polls the source after Ready(None) when it first flushes buffered frames; an unfused user stream may then panic or misbehave (outcome lost)' % okf)
+        sadt = tonic.adt('codec::encode::EncodedBytes')
+        sty = [f['ty'] for f in sadt['variants'][0]['fields'] if f['n'] == 'source']
+        R.check(bool(sty) and 'Fuse<' in sty[0], 'C02.R3', 'source-field-type', 'tonic/src/codec/encode.rs (struct EncodedBytes)', 'field source: %s' % (sty[0] if sty else None))
+
+    # ---------------------------------------------------------------- R8 status metadata written whole
+    R.describe('C02.R8', 'an error status is written with all of its metadata: add_header extends the header map with the whole (sanitised) metadata map, never entry-by-entry insert (which keeps only the last of repeated values)')
+    with R.guard('C02.R8'):
+        ah = tonic.body('status::Status::add_header')
+        R.saw(ah)
+        ext = ah.calls(name='extend')
+        okx = len(ext) == 1 and is_call(ah.origin(ext[0][1]['args'][1]), name='into_sanitized_headers') and mentions_field(ah.origin(ext[0][1]['args'][1]), 'metadata')
+        R.check(okx, 'C02.R8', 'metadata-extended-whole', site(ah), 'header_map.extend(self.metadata.clone().into_sanitized_headers()): %r' % okx)
+        ins = ah.calls(pat='HeaderMap', name='insert')
+        inloop = [bb for bb, t in ins if bb in ah.reachable(ah.succs(bb)[0])] if ins else []
+        R.check(not inloop, 'C02.R8', 'no-per-entry-insert-loop', site(ah, inloop[0]) if inloop else site(ah), 'HeaderMap::insert inside a loop: %d site(s)' % len(inloop))
+
     # ---------------------------------------------------------------- R4 client end-of-stream gate
     R.describe('C02.R4', 'client: the stream ends cleanly only if StreamingInner::response() is Ok; response() consults infer_grpc_status(self.trailers, http status) for responses; trailers frames accumulate')
     with R.guard('C02.R4'):
